@@ -562,6 +562,41 @@ theorem hasGroup_fold (c f : String) (ops : List Op) (v : Option (List Nat)) (b 
 
 /-! ### front-end fan-out -/
 
+theorem addSession_mem (fr : Front) : fr.addSession.2 ∈ fr.addSession.1.live := by
+  unfold Front.addSession
+  by_cases h : (allocId fr.nextId).1 ∈ fr.live <;> simp [h]
+
+theorem addSession_nodup (fr : Front) (h : fr.live.Nodup) : fr.addSession.1.live.Nodup := by
+  unfold Front.addSession
+  by_cases hm : (allocId fr.nextId).1 ∈ fr.live
+  · simp [hm, h]
+  · simp only [hm, if_false]
+    rw [List.nodup_append]
+    refine ⟨h, by simp, ?_⟩
+    intro a ha b hb
+    simp at hb; subst hb
+    intro hab; subst hab; exact hm ha
+
+theorem removeSession_nodup (fr : Front) (id : Nat) (h : fr.live.Nodup) : (fr.removeSession id).1.live.Nodup := by
+  unfold Front.removeSession
+  by_cases hm : id ∈ fr.live
+  · simp only [hm, if_true]; exact h.erase id
+  · simp [hm, h]
+
+theorem live_nodup_step (ser : String → List Nat) (s : St) (op : Op) (h : s.front.live.Nodup) :
+    (step ser s op).1.front.live.Nodup := by
+  cases op with
+  | sadd => exact addSession_nodup _ h
+  | sdel id => exact removeSession_nodup _ id h
+  | _ => exact h
+
+theorem live_nodup_run (ser : String → List Nat) (s : St) (ops : List Op) (h : s.front.live.Nodup) :
+    (run ser s ops).front.live.Nodup := by
+  induction ops generalizing s with
+  | nil => exact h
+  | cons op ops ih => exact ih _ (live_nodup_step ser s op h)
+
+
 theorem pushMsg_ids (live ids : List Nat) (route : String) (data : List Nat) :
     (pushMsg live ids route data).map (·.id) = ids.filter (fun i => decide (i ∈ live)) := by
   simp [pushMsg, List.map_map, Function.comp_def]
